@@ -5,7 +5,7 @@ from .. import cachegen
 
 class C07(CacheProp):
     pid = "C07"
-    profiles = ["ttl", "ttl", "basic", "ttl", "tinybuf", "ttl", "collide"]
+    profiles = ["ttl", "ttl", "basic", "ttl", "tinybuf", "shouldttl", "ttl", "collide", "shouldttl"]
     rule = ("virtual-time histories (testing/synctest): TTLs of 1 ns .. 60 s and negative, replaced by longer/shorter/none, "
             "delete and re-insert, inserts applied late, clock advanced to exp-1ns / exp / exp+1ns and across bucket "
             "boundaries, reads before and after sweeps; Get/GetTTL/IterValues compared with the machine and checked against "
